@@ -20,7 +20,7 @@ inductive Kind where
   | nil | neverUsed
   | bool (b : Bool)
   | bin (lenBytes : Nat)      -- d.FieldRawLen("value", int64(d.FieldU<8·n>("length"))*8)
-  | ext (lenBytes : Nat)      -- extFn(8·n)  (reads an 8-bit length whatever n is: known finding msgpack-ext-length)
+  | ext (lenBytes : Nat)      -- extFn(8·n)
   | f32 | f64
   | uint (bytes : Nat)        -- d.FieldU<8·n>("value")
   | sint (bytes : Nat)        -- d.FieldS<8·n>("value")
@@ -80,11 +80,11 @@ def lenThen (mk : Bytes → V) (r : Res (Nat × Bytes)) : Res (V × Bytes) :=
     | .err e => .err e
     | .ok (x, r) => .ok (mk x, r)
 
-/-- `extFn(lengthBits)` (msgpack.go:84-90) AS IT IS: `lengthBits` is ignored, the length is always read with
-    `d.FieldU8("length")` (right for ext8 only; known finding `msgpack-ext-length`); then `d.FieldS8("fixtype")`
-    and `d.FieldRawLen("value", length*8)`, which `.value | tovalue` returns as the bytes they are -/
-def extFn (bs : Bytes) : Res (V × Bytes) :=
-  match readU 1 bs with
+/-- `extFn(lengthBits)` (msgpack.go:83-89): `d.FieldU("length", lengthBits)`, `d.FieldS8("fixtype")`,
+    `d.FieldRawLen("value", length*8)`, which `.value | tovalue` returns as the bytes they are
+    (the length was read as 8 bits whatever `lengthBits` before commit 349ab12e) -/
+def extFn (n : Nat) (bs : Bytes) : Res (V × Bytes) :=
+  match readU n bs with
   | .err e => .err e
   | .ok (len, r) =>
     match readN 1 r with
@@ -121,7 +121,7 @@ def runKind (dec : Bytes → Res (V × Bytes)) (t : Nat) (bs : Bytes) : Kind →
   | .bool b => .ok (.bool b, bs)
   | .bin n => lenThen .bytes (readU n bs)
   | .str n => lenThen (fun x => .str (sanitizeX x)) (readU n bs)
-  | .ext _ => extFn bs
+  | .ext n => extFn n bs
   | .fixext n => fixextFn n bs
   | .f32 => scalar 4 (fun p => .float (widen32 p)) bs
   | .f64 => scalar 8 .float bs
@@ -161,7 +161,7 @@ inductive W where
   | bin (f : LenForm) (b : Bytes)
   | arr (f : LenForm) (xs : List W)
   | map (f : LenForm) (kvs : List (W × W))
-  | ext8 (ty : UInt8) (b : Bytes)                -- 0xc7 len8 type data   (ext16/ext32 are mis-decoded: not wire forms)
+  | ext (f : LenForm) (ty : UInt8) (b : Bytes)   -- 0xc7/0xc8/0xc9 length type data (8/16/32-bit length)
   | fixext (ty : UInt8) (b : Bytes)              -- 0xd4..0xd8 type data, |data| ∈ {1,2,4,8,16}
 deriving Repr, Inhabited
 
@@ -202,7 +202,7 @@ def valid : W → Bool
   | .bin f b => lenOk none true f b.length
   | .arr f xs => lenOk (some 15) false f xs.length && validL xs
   | .map f kvs => lenOk (some 15) false f kvs.length && validKV kvs && nodupB (keysOf kvs)
-  | .ext8 _ b => decide (b.length < 2^8)
+  | .ext f _ b => lenOk none true f b.length
   | .fixext _ b => decide (b.length = 1 ∨ b.length = 2 ∨ b.length = 4 ∨ b.length = 8 ∨ b.length = 16)
 def validL : List W → Bool
   | [] => true
@@ -227,7 +227,7 @@ def value : W → V
   | .bin _ b => .bytes b
   | .arr _ xs => .arr (valueL xs)
   | .map _ kvs => .map (valueKV kvs)
-  | .ext8 _ b => .str b                          -- `.value | tovalue` of a raw field: the bytes as they are
+  | .ext _ _ b => .str b                         -- `.value | tovalue` of a raw field: the bytes as they are
   | .fixext _ b => .str b
 def valueL : List W → List V
   | [] => []
@@ -268,7 +268,7 @@ def encode : W → Bytes
   | .bin f b => encLen 0 0xc4 0xc5 0xc6 f b.length ++ b
   | .arr f xs => encLen 0x90 0 0xdc 0xdd f xs.length ++ encodeL xs
   | .map f kvs => encLen 0x80 0 0xde 0xdf f kvs.length ++ encodeKV kvs
-  | .ext8 ty b => byte 0xc7 :: (toBE 1 b.length ++ ty :: b)
+  | .ext f ty b => encLen 0 0xc7 0xc8 0xc9 f b.length ++ ty :: b
   | .fixext ty b => byte (fixextType b.length) :: ty :: b
 def encodeL : List W → Bytes
   | [] => []
@@ -299,6 +299,7 @@ def canon : V → W
   | .bytes b => .bin (if b.length < 2^8 then .l8 else if b.length < 2^16 then .l16 else .l32) b
   | .arr xs => .arr (smallestLen 15 false xs.length) (canonL xs)
   | .map kvs => .map (smallestLen 15 false kvs.length) (canonKV kvs)
+  | .tagged _ _ => .nil
 def canonL : List V → List W
   | [] => []
   | x :: xs => canon x :: canonL xs
@@ -324,6 +325,7 @@ def inDomain : V → Bool
   | .bytes b => decide (b.length < 2^32)
   | .arr xs => decide (xs.length < 2^32) && inDomainL xs
   | .map kvs => decide (kvs.length < 2^32) && inDomainKV kvs && nodupB (vKeysOf kvs)
+  | .tagged _ _ => false
 def inDomainL : List V → Bool
   | [] => true
   | x :: xs => inDomain x && inDomainL xs
